@@ -37,6 +37,13 @@ type Invariants struct {
 func structKey(t types.Type, field int) (string, string) {
 	t = derefT(t)
 	name := typeStr(t)
+	for i := 0; i < 3; i++ {
+		o, ok := embeddedOwner[name]
+		if !ok {
+			break
+		}
+		name = o
+	}
 	return name, fieldName(t, field)
 }
 
@@ -56,7 +63,7 @@ func BuildInvariants(p *Prog) *Invariants {
 			tn, f := structKey(fa.X.Type(), fa.Field)
 			key := tn + "." + f
 			sc := storeClass{kind: "other", in: st}
-			if al, ok := fa.X.(*ssa.Alloc); ok {
+			if al, ok := embRoot(fa.X).(*ssa.Alloc); ok {
 				_ = al
 				sc.inLit = true
 			}
@@ -66,7 +73,7 @@ func BuildInvariants(p *Prog) *Invariants {
 					sc.kind, sc.c = "const", c
 				} else if bo, ok := st.Val.(*ssa.BinOp); ok && (bo.Op == token.ADD || bo.Op == token.SUB) {
 					if k, ok := constInt(bo.Y); ok {
-						if ld := fieldLoad(bo.X); ld != nil && ld.Field == fa.Field && ld.X == fa.X {
+						if ld := fieldLoad(bo.X); ld != nil && ld.Field == fa.Field && sameEmbBase(ld.X, fa.X) {
 							sc.kind = "inc"
 							sc.c = k
 							if bo.Op == token.SUB {
@@ -74,7 +81,7 @@ func BuildInvariants(p *Prog) *Invariants {
 							}
 						}
 					}
-				} else if ld := fieldLoad(st.Val); ld != nil && ld.X == fa.X {
+				} else if ld := fieldLoad(st.Val); ld != nil && sameEmbBase(ld.X, fa.X) {
 					sc.kind = "copy"
 					_, sc.field = structKey(ld.X.Type(), ld.Field)
 				}
@@ -145,6 +152,30 @@ func BuildInvariants(p *Prog) *Invariants {
 		}
 	}
 	return inv
+}
+
+// embRoot strips the steps into structs embedded by value: &s.position stands for s.
+func embRoot(v ssa.Value) ssa.Value {
+	for {
+		fa, ok := v.(*ssa.FieldAddr)
+		if !ok || !promotedThrough(fa.X.Type(), fa.Field) {
+			return v
+		}
+		v = fa.X
+	}
+}
+
+// sameEmbBase: do a and b address the same struct (possibly through the same embedded parts)?
+func sameEmbBase(a, b ssa.Value) bool {
+	if a == b {
+		return true
+	}
+	fa, ok1 := a.(*ssa.FieldAddr)
+	fb, ok2 := b.(*ssa.FieldAddr)
+	if ok1 && ok2 && fa.Field == fb.Field && promotedThrough(fa.X.Type(), fa.Field) && types.Identical(fa.X.Type(), fb.X.Type()) {
+		return sameEmbBase(fa.X, fb.X)
+	}
+	return false
 }
 
 func fieldLoad(v ssa.Value) *ssa.FieldAddr {
